@@ -4389,6 +4389,22 @@ class CIMClass(_CIMComparisonMixin, SlottedPickleMixin):
 
 
 # pylint: disable=too-many-statements,too-many-instance-attributes
+
+def _embedded_object_xmlstr(obj):
+    """
+    Return the CIM-XML string for an embedded instance or embedded class.
+
+    An embedded object is represented by its bare INSTANCE or CLASS element;
+    an instance path that may be set on an embedded instance is not part of
+    the embedded object and is ignored (with the path, a VALUE.NAMEDINSTANCE
+    or similar element would be produced, which is invalid as an embedded
+    object value).
+    """
+    if isinstance(obj, CIMInstance):
+        return obj.tocimxml(ignore_path=True).toxml()
+    return obj.tocimxml().toxml()
+
+
 class CIMProperty(_CIMComparisonMixin, SlottedPickleMixin):
     """
     A CIM property (value or declaration).
@@ -5024,7 +5040,8 @@ class CIMProperty(_CIMComparisonMixin, SlottedPickleMixin):
                             array_xml.append(_cim_xml.VALUE(None))
                     elif self.embedded_object is not None:
                         assert isinstance(v, (CIMInstance, CIMClass))
-                        array_xml.append(_cim_xml.VALUE(v.tocimxml().toxml()))
+                        array_xml.append(
+                            _cim_xml.VALUE(_embedded_object_xmlstr(v)))
                     else:
                         array_xml.append(_cim_xml.VALUE(atomic_to_cim_xml(v)))
                 value_xml = _cim_xml.VALUE_ARRAY(array_xml)
@@ -5061,7 +5078,8 @@ class CIMProperty(_CIMComparisonMixin, SlottedPickleMixin):
             else:
                 if self.embedded_object is not None:
                     assert isinstance(self.value, (CIMInstance, CIMClass))
-                    value_xml = _cim_xml.VALUE(self.value.tocimxml().toxml())
+                    value_xml = _cim_xml.VALUE(
+                        _embedded_object_xmlstr(self.value))
                 else:
                     value_xml = _cim_xml.VALUE(atomic_to_cim_xml(self.value))
 
@@ -6344,7 +6362,7 @@ class CIMParameter(_CIMComparisonMixin, SlottedPickleMixin):
                                 array_xml.append(_cim_xml.VALUE(None))
                         elif self.embedded_object is not None:
                             array_xml.append(
-                                _cim_xml.VALUE(v.tocimxml().toxml()))
+                                _cim_xml.VALUE(_embedded_object_xmlstr(v)))
                         else:
                             array_xml.append(
                                 _cim_xml.VALUE(atomic_to_cim_xml(v)))
@@ -6355,7 +6373,8 @@ class CIMParameter(_CIMComparisonMixin, SlottedPickleMixin):
                 if self.type == 'reference':
                     value_xml = _cim_xml.VALUE_REFERENCE(self.value.tocimxml())
                 elif self.embedded_object is not None:
-                    value_xml = _cim_xml.VALUE(self.value.tocimxml().toxml())
+                    value_xml = _cim_xml.VALUE(
+                        _embedded_object_xmlstr(self.value))
                 else:
                     value_xml = _cim_xml.VALUE(atomic_to_cim_xml(self.value))
 
